@@ -973,6 +973,9 @@ impl<'p, W, R, T> CompilationScope<'p, W, R, T> {
                             )?)
                             .ok_or(CompilationError::CallableBindingFailed)?;
                     }
+                    if !func.can_bind(&bind) {
+                        return Err(CompilationError::CallableBindingFailed);
+                    }
                     return Ok(func.rtype(&bind));
                 }
                 Err(CompilationError::NotAFunction { type_: func_type })
